@@ -7,7 +7,7 @@ from ..core import unhx, hx
 THEOREMS = ['lost_output_fails', 'sink_holds_prefix', 'complete_output_unchanged', 'direct_writes_fail']
 LEVEL = 'proof'
 RULE = ('every report command with the output sink failing from byte offset k, for every k in 0..len (small reports) or sampled k incl. the '
-        '4096-byte buffer boundary (large reports); logs with a food name longer than the buffer (direct writes); the real binary with stdout on /dev/full and on a closed pipe; bufio.Writer model vs bufio; '
+        '4096-byte buffer boundary (large reports); logs with a food name longer than the buffer (direct writes); the real binary with stdout on /dev/full, on a closed pipe and on a regular file that cannot grow (ulimit -f 0); bufio.Writer model vs bufio; '
         'non-trivial = k strictly inside the report; distinct by (command, input hash, k)')
 ASSUMPTIONS = ['SIGPIPE delivery and ENOSPC are exercised only by the real-binary runs']
 
@@ -136,11 +136,11 @@ def run(ctx):
     for b in bases[:len(CMDS)]:
         if impl0[b.id].get('status') != 'ok' or not unhx(impl0[b.id]['out']):
             continue
-        for sinkkind in ('full', 'closed'):
+        for sinkkind in ('full', 'closed', 'fsize'):
             rc, out, err = core.run_real_binary(binary, b.argv(), b.files, stdout_to=sinkkind)
             nreal += 1
             if rc == 0:
-                ctx.problem('oracle', '`%s` exits 0 with stdout on %s' % (b.meta['kind'], '/dev/full' if sinkkind == 'full' else 'a closed pipe'), b,
+                ctx.problem('oracle', '`%s` exits 0 with stdout on %s' % (b.meta['kind'], {'full': '/dev/full', 'closed': 'a closed pipe', 'fsize': 'a regular file that cannot grow (ulimit -f 0)'}[sinkkind]), b,
                             {'stderr': err.decode('utf-8', 'replace')[:200]}, signature='lost-output-exit-0:' + b.meta['kind'].split(' ')[0])
     ctx.evaluations += nreal
     ctx.notes.append('%d runs of the untagged binary with stdout on /dev/full or a closed pipe' % nreal)
